@@ -25,6 +25,7 @@ from __future__ import annotations
 from typing import cast
 
 from explorerscript.antlr.ExplorerScriptParser import ExplorerScriptParser
+from explorerscript.error import SsbCompilerError
 from explorerscript.antlr.ExplorerScriptVisitor import ExplorerScriptVisitor
 from explorerscript.macro import ExplorerScriptMacro
 from explorerscript.source_map import SourceMapBuilder
@@ -36,6 +37,7 @@ from explorerscript.ssb_converting.compiler.compile_handlers.functions.simple_de
 from explorerscript.ssb_converting.compiler.compiler_visitor.statement_visitor import StatementVisitor
 from explorerscript.ssb_converting.compiler.utils import CompilerCtx, Counter
 from explorerscript.ssb_converting.ssb_data_types import SsbRoutineInfo, SsbOperation
+from explorerscript.util import f, _
 
 
 class RoutineVisitor(ExplorerScriptVisitor):
@@ -122,6 +124,8 @@ class RoutineVisitor(ExplorerScriptVisitor):
         self._root_handler.add(IntegerLikeCompileHandler(ctx, self.compiler_ctx))
 
     def _enlarge_routine_info(self) -> None:
+        if self._active_routine_id < 0:
+            raise SsbCompilerError(f(_("Invalid routine id: {self._active_routine_id}")))
         if len(self.routine_infos) - 1 < self._active_routine_id:
             needed = self._active_routine_id - len(self.routine_infos) + 1
             for i in range(0, needed):
